@@ -93,6 +93,8 @@ THEOREMS = [
     "OllamaVerif.C06.wrapper_reserve_mask_exact",
     "OllamaVerif.C06.placeBase_shrunk",
     "OllamaVerif.C06.removeV_error_unchanged",
+    "OllamaVerif.C06.wRemoveV_error_unchanged",
+    "OllamaVerif.C06.F29_wrapper_remove_half_done",
     "OllamaVerif.C06.remove_ok_of_guard_none",
     "OllamaVerif.C06.removeV_ok_eq",
     "OllamaVerif.C06.removeV_inv",
@@ -151,7 +153,8 @@ def matcher(finding, failure):
 
 BIT_NAMES = {1: "F14 (defrag coalescing)", 2: "F15b (CanResume coverage)", 4: "F23 (defrag without layers)",
              8: "C07 F-SWA-capacity (sliding-window cache sized per sequence)",
-             16: "F28 (Remove leaves the cache unchanged when it returns an error)"}
+             16: "F28 (Remove leaves the cache unchanged when it returns an error)",
+             32: "F29 (WrapperCache.Remove asks every wrapped cache before changing any)"}
 
 
 def lean_tables(lines, variant):
@@ -177,7 +180,7 @@ def lean_tables(lines, variant):
 
     return ("-- GENERATED by vlib/checks/c06.py from the tree under test (TestVerifC06Tables); do not edit\n"
             "namespace OllamaVerif.Generated.C06\n\n"
-            f"/-- model variant bits probed from the tree (1 F14, 2 F15b, 4 F23, 8 SWA capacity per sequence, 16 F28 atomic Remove) -/\n"
+            f"/-- model variant bits probed from the tree (1 F14, 2 F15b, 4 F23, 8 SWA capacity per sequence, 16 F28 atomic Remove, 32 F29 atomic WrapperCache.Remove) -/\n"
             f"def variantBits : Nat := {variant}\n\n"
             + lst("mask", "Nat × Bool × Bool × Int × Int × Bool",
                   "window (0 = none), the cell is owned by the query's sequence, causal test enabled, cell position, "
